@@ -17,17 +17,23 @@ def ensure_wt():
     demo = os.path.join(WT, "demo")
     os.makedirs(os.path.join(demo, "src"), exist_ok=True)
     os.makedirs(os.path.join(demo, ".cargo"), exist_ok=True)
-    open(os.path.join(demo, "Cargo.toml"), "w").write('[package]\nname="demo"\nversion="0.1.0"\nedition="2021"\n[workspace]\n[dependencies]\nsonic-rs={path=".."}\nsonic-number={path="../sonic-number"}\nbytes="1"\nfaststr="0.2"\nserde={version="1",features=["derive"]}\nserde_json={version="1",features=["float_roundtrip","raw_value"]}\n')
+    open(os.path.join(demo, "Cargo.toml"), "w").write('[package]\nname="demo"\nversion="0.1.0"\nedition="2021"\n[workspace]\n[dependencies]\nsonic-rs={path=".."}\nsonic-number={path="../sonic-number"}\nsonic-simd={path="../sonic-simd"}\nbytes="1"\nfaststr="0.2"\nserde={version="1",features=["derive"]}\nserde_json={version="1",features=["float_roundtrip","raw_value"]}\n')
     open(os.path.join(demo, ".cargo", "config.toml"), "w").write('[net]\noffline=true\n[build]\nrustflags=["-C","target-cpu=native"]\ntarget-dir="%s/target-demo"\n' % WT)
     shutil.copy("/repo/Cargo.lock", os.path.join(demo, "Cargo.lock"))
 
+BASELINE = False
+
 def run_demo(src):
     shutil.copy(os.path.join(src, "demo.rs"), os.path.join(WT, "demo", "src", "main.rs"))
-    rc, out = sh("cargo run --release --offline 2>&1 | tail -15", cwd=os.path.join(WT, "demo"))
-    rc2, out2 = sh("cargo run --release --offline -q >/dev/null 2>&1; echo EXIT=$?", cwd=os.path.join(WT, "demo"))
+    # C17 demonstrations are built without target-cpu=native: the portable backend is the one compiled
+    pre = 'RUSTFLAGS="" CARGO_TARGET_DIR=%s/target-demo-baseline ' % WT if BASELINE else ""
+    rc, out = sh(pre + "cargo run --release --offline 2>&1 | tail -15", cwd=os.path.join(WT, "demo"))
+    rc2, out2 = sh(pre + "cargo run --release --offline -q >/dev/null 2>&1; echo EXIT=$?", cwd=os.path.join(WT, "demo"))
     return "EXIT=0" in out2, out[-600:]
 
 def verify(mid, src):
+    global BASELINE
+    BASELINE = mid.startswith("C17")
     ensure_wt()
     ok_clean, out_clean = run_demo(src)
     rc, out = sh("git apply %s" % os.path.join(src, "patch.diff"), cwd=WT)
